@@ -193,3 +193,191 @@ Theorem C08_audit_metrics_ticker_from_source : forall fl : flags,
   end.
 Proof. exact audit_metrics_from_source. Qed.
 Print Assumptions C08_audit_metrics_ticker_from_source.
+
+(* ================= errgroup and its derived context: a machine, not a stated rule =================
+   Model/Errgroup.v is golang.org/x/sync/errgroup v0.4.0 (the version /repo/go.mod pins; Go, Wait, done, WithContext -
+   SetLimit / TryGo / the semaphore are not used by /repo and are left out) as a concurrent small-step machine: the caller
+   (Go f_0; ..; Go f_(n-1); Wait) and one goroutine per Go, one atomic step per shared-memory access / synchronisation
+   operation, the worker functions and the parent context's cancellation as environment events.  A script gives the number of
+   workers and what each worker function returns; a schedule is a list of thread ids (TC caller, TG i goroutine i, TF i
+   "f_i returns", TX "the parent is cancelled"); [exec sc sched] is the configuration (state, trace - newest event first)
+   after the schedule.  Everything below is for EVERY script and EVERY schedule.  The model is tied to the real library on
+   every run by stage errgroup (harness/errgroup, Model/ErrgroupCheck.v). *)
+From Coq Require Import Lia.
+From AM Require Import Model.Errgroup Proofs.ErrgroupLemmas Model.ErrgroupDaemon Proofs.ErrgroupWorkers.
+
+(* 1a. g.err is written at most once and the Once body is entered at most once; the value of g.err is the error returned
+   by the worker function of the goroutine that entered the Once body *)
+Theorem C08_errgroup_err_written_once : forall sc sched,
+  let s := fst (exec sc sched) in let tr := snd (exec sc sched) in
+  List.length (filter is_write tr) <= 1 /\ List.length (filter is_enter tr) <= 1 /\
+  (s_err s = None -> filter is_write tr = []) /\
+  (forall e, s_err s = Some e ->
+     exists j w, filter is_enter tr = [EvEnter j] /\ filter is_write tr = [EvWrite j e] /\
+                 In (EvRet j (Some e)) tr /\ nth_error sc j = Some w /\ w_res w = Some e).
+Proof. exact err_written_once. Qed.
+Print Assumptions C08_errgroup_err_written_once.
+
+(* 1b. no data race on g.err, as an ordering on the trace: a write of g.err by goroutine i comes before that goroutine's
+   wg.Done; wg.Wait observes 0 only after the wg.Done of every goroutine; Wait's two reads of g.err (for cancel and for
+   return) come after wg.Wait observed 0; hence no read of g.err comes before any write *)
+Theorem C08_errgroup_err_race_free : forall sc sched, let tr := snd (exec sc sched) in
+  (forall i e, never_before (EvDone i) (EvWrite i e) tr) /\
+  (forall i, i < List.length sc -> precedes (EvDone i) EvWaitPass tr) /\
+  (forall r, is_read r = true -> precedes EvWaitPass r tr) /\
+  (forall i e r, is_read r = true -> never_before r (EvWrite i e) tr).
+Proof. exact err_race_free. Qed.
+Print Assumptions C08_errgroup_err_race_free.
+
+(* wg.Done never finds the counter at zero ("sync: negative WaitGroup counter" is an explicit outcome of the machine) *)
+Theorem C08_errgroup_no_panic : forall sc sched i, s_g (fst (exec sc sched)) i <> GPanic.
+Proof. exact no_panic. Qed.
+Print Assumptions C08_errgroup_no_panic.
+
+(* 3. Wait returns only after every goroutine started before it ran wg.Done - i.e. after every worker function returned:
+   each goroutine is finished, its Done and its function's return are in the trace, in that order, before wg.Wait passed -;
+   it returns nil iff every worker function returned nil, otherwise the error of the worker whose goroutine won the Once;
+   the group context is cancelled by then in any case.
+   "The first non-nil error" of the library's documentation is first in the order of ENTERING errOnce.Do, which need not be
+   the order in which the functions returned (C08_errgroup_first_means_once_order below). *)
+Theorem C08_errgroup_wait : forall sc sched r,
+  let s := fst (exec sc sched) in let tr := snd (exec sc sched) in
+  wait_result s = Some r ->
+  (forall i w, nth_error sc i = Some w -> s_g s i = GExit (w_res w) /\ In (EvDone i) tr /\ In (EvRet i (w_res w)) tr) /\
+  (forall i, i < List.length sc -> precedes (EvDone i) EvWaitPass tr) /\
+  (forall i, each_occ (EvDone i) (fun l => exists x, In (EvRet i x) l) tr) /\
+  (r = None <-> forall i w, nth_error sc i = Some w -> w_res w = None) /\
+  (forall e, r = Some e -> exists j w, filter is_enter tr = [EvEnter j] /\ nth_error sc j = Some w /\ w_res w = Some e) /\
+  s_ctx s <> None.
+Proof. exact wait_returns. Qed.
+Print Assumptions C08_errgroup_wait.
+
+(* two failing workers; f_0 returns (error 1) BEFORE f_1 (error 2), but goroutine 1 reaches errOnce.Do first: goroutine 0
+   blocks on the running Once, then skips it; Wait returns error 2 and that is the context's cause *)
+Definition two_failing : script := [mkW false (Some 1); mkW false (Some 2)].
+Definition once_order_schedule : list tid :=
+  [TC; TC; TC; TC; TF 0; TF 1; TG 1; TG 0; TG 1; TG 1; TG 1; TG 1; TG 0; TG 0; TC; TC; TC].
+Example C08_errgroup_first_means_once_order :
+  let c := exec two_failing once_order_schedule in
+  wait_result (fst c) = Some (Some 2) /\ s_ctx (fst c) = Some (CErr 2) /\
+  filter (fun e => match e with EvRet _ _ | EvEnter _ | EvSkip _ => true | _ => false end) (rev (snd c)) =
+    [EvRet 0 (Some 1); EvRet 1 (Some 2); EvEnter 1; EvSkip 0] /\
+  (* ... and goroutine 0 was blocked while goroutine 1 ran the Once body *)
+  act two_failing (fst (exec two_failing [TC; TC; TC; TC; TF 0; TF 1; TG 1])) (TG 0) = None.
+Proof. vm_compute. repeat split; reflexivity. Qed.
+
+(* 2c / 4a. "some worker function returned non-nil => within a bounded number of fair rounds the group context is
+   cancelled": from ANY state of any execution in which a worker function has returned a non-nil error, three fair rounds
+   (a round = the caller and every goroutine of the group scheduled at least once, any order, anything in between) leave
+   the context cancelled *)
+Theorem C08_errgroup_cancel_fair : forall sc sched i e c',
+  g_ret (s_g (fst (exec sc sched)) i) = Some (Some e) -> erounds sc 3 (exec sc sched) c' -> s_ctx (fst c') <> None.
+Proof. exact cancel_fair. Qed.
+Print Assumptions C08_errgroup_cancel_fair.
+
+(* 5 / 4b. deadlock freedom of the group: from every state of every execution in which all worker functions have returned,
+   nine fair rounds bring Wait to return (the Once never blocks for ever, the counter reaches 0) *)
+Theorem C08_errgroup_deadlock_free : forall sc sched c',
+  allret sc (fst (exec sc sched)) -> erounds sc 9 (exec sc sched) c' -> wait_result (fst c') <> None.
+Proof. exact deadlock_free. Qed.
+Print Assumptions C08_errgroup_deadlock_free.
+
+(* the hypotheses are met by a run in which one of three workers fails: its error cancels the context, the two workers
+   that wait for the context then return ctx.Err() (numbered 0), and a fair continuation ends in Wait returning that error *)
+Definition daemon_like : script := [mkW true (Some 0); mkW false (Some 7); mkW true (Some 0)].
+Definition daemon_like_schedule : list tid :=
+  [TC; TC; TC; TC; TC; TC; TF 0; TF 1; TG 1; TG 1; TG 1; TF 0; TF 2].
+Example C08_errgroup_deadlock_free_example :
+  s_ctx (fst (exec daemon_like [TC; TC; TC; TC; TC; TC; TF 0; TF 1; TG 1; TG 1])) = None /\
+  s_ctx (fst (exec daemon_like daemon_like_schedule)) = Some (CErr 7) /\
+  allret daemon_like (fst (exec daemon_like daemon_like_schedule)) /\
+  (let round := [TG 2; TC; TG 0; TG 1] in
+   efair daemon_like round /\
+   wait_result (fst (run daemon_like (exec daemon_like daemon_like_schedule) (round ++ round ++ round ++ round ++ round ++ round))) =
+     Some (Some 7)).
+Proof.
+  split; [vm_compute; reflexivity|]. split; [vm_compute; reflexivity|]. split.
+  - intros i L. simpl in L. destruct i as [|[|[|i]]]; [vm_compute; discriminate..|lia].
+  - split; [|vm_compute; reflexivity]. split; [simpl; auto|].
+    intros i L. simpl in L. destruct i as [|[|[|i]]]; simpl; auto. lia.
+Qed.
+
+(* ---------- 4. REFINEMENT: Workers.v's rule about errgroup is a theorem about the machine ----------
+   Model/ErrgroupDaemon.v runs the workers of Model/Workers.v as the worker functions of the errgroup machine: goroutine i
+   is inside f_i exactly as long as worker i's function has not returned ([coupled]); a composite round [cround] = a round of
+   every worker under the machine's current context value, then "f_i returns" for the worker functions that have returned
+   (a signal may arrive), then three fair rounds of the group's own threads.
+   (a) Simulation: every composite round is a [dround] of Workers.v - in particular a failed worker function or an earlier
+       cancellation leaves the context cancelled at the end of the round, which is exactly what [dround] STATES -, so every
+       reachable composite state projects to a reachable state of Workers.v's daemon. *)
+Theorem C08_errgroup_round_is_dround : forall ds sc, plain sc -> forall s c s' c',
+  Inv sc c -> coupled sc s c -> cround ds sc (s, c) (s', c') ->
+  dround ds s s' /\ Inv sc c' /\ coupled sc s' c'.
+Proof. exact cround_dround. Qed.
+Print Assumptions C08_errgroup_round_is_dround.
+
+Theorem C08_errgroup_daemon_simulation : forall K (sc : script), List.length sc = List.length daemon -> plain sc ->
+  forall x, creach K daemon sc x -> dreach K daemon (fst x) /\ Inv sc (snd x) /\ coupled sc (fst x) (snd x).
+Proof. intros K sc. exact (creach_sound K daemon sc). Qed.
+Print Assumptions C08_errgroup_daemon_simulation.
+
+(* (b) [exited]: when every worker function has returned, eg.Wait() returns within nine fair rounds of the group's threads,
+       with a non-nil error iff some worker function failed (= the status [exited] computes) *)
+Theorem C08_errgroup_daemon_exit : forall (sc : script) s c c',
+  Inv sc c -> coupled sc s c -> all_returned (d_ws s) = true -> erounds sc 9 c c' ->
+  exists r, wait_result (fst c') = Some r /\ is_some r = any_failed (d_ws s).
+Proof. exact coupled_exit. Qed.
+Print Assumptions C08_errgroup_daemon_exit.
+
+(* (c) C08_fail_stop for the daemon WITH the errgroup machine inside: from every reachable state,
+   (1) a round in which a worker function returns an error leaves the machine's group context cancelled;
+   (2) once it is cancelled, after cancel_bound K composite rounds every worker function has returned, and nine more fair
+       rounds of the group's threads later Wait has returned - non-nil iff a worker function failed, non-nil in particular
+       if one had failed when the context was found cancelled. *)
+Theorem C08_errgroup_daemon_fail_stop : forall K (sc : script), List.length sc = List.length daemon -> plain sc ->
+  forall x, creach K daemon sc x ->
+    (forall y, cround daemon sc x y -> any_failed (d_ws (fst y)) = true -> ctx_done (snd y) = true) /\
+    (ctx_done (snd x) = true -> forall n y, cancel_bound K <= n -> crounds daemon sc n x y ->
+       all_returned (d_ws (fst y)) = true /\
+       forall c', erounds sc 9 (snd y) c' ->
+         exists r, wait_result (fst c') = Some r /\ is_some r = any_failed (d_ws (fst y)) /\
+                   (any_failed (d_ws (fst x)) = true -> is_some r = true)).
+Proof.
+  intros K sc L HP. apply (errgroup_fail_stop K daemon sc L HP).
+  apply table_descs_ok; apply C08_rows_guarded.
+Qed.
+Print Assumptions C08_errgroup_daemon_fail_stop.
+
+(* the hypotheses are satisfiable: a script for the three workers of [daemon] (the second one fails), and the composite's
+   initial state - the caller has executed its three Go statements, every goroutine is inside its worker function, the
+   context is live - is reachable and coupled *)
+Example C08_errgroup_daemon_nonvacuous :
+  let sc := [mkW false None; mkW false (Some 5); mkW false None] in
+  List.length sc = List.length daemon /\ plain sc /\
+  (forall K, creach K daemon sc (dinit K daemon, cstart sc) /\ coupled sc (dinit K daemon) (cstart sc)) /\
+  s_c (fst (cstart sc)) = CWait /\ s_cnt (fst (cstart sc)) = 3 /\
+  map (s_g (fst (cstart sc))) [0; 1; 2; 3] = [GF; GF; GF; GNot].
+Proof.
+  split; [vm_compute; reflexivity|]. split.
+  - intros w [<-|[<-|[<-|[]]]]; reflexivity.
+  - split; [|vm_compute; repeat split; reflexivity].
+    intros K. split; [constructor|]. apply coupled_start. vm_compute. reflexivity.
+Qed.
+
+(* the comparator of the correspondence stage (Model/ErrgroupCheck.v) on three scripts: what the model says the harness must
+   observe (finished goroutines, Wait's result, cause of the group context) after each operation *)
+From AM Require Import Model.ErrgroupCheck.
+Example C08_errgroup_check_three_workers :
+  model_obs [(false, Some 2); (false, None); (true, Some 0)] [ORel 1; OWait; ORel 2; ORel 0] =
+  [EObs 1 None None; EObs 1 None None; EObs 1 None None; EObs 3 (Some (Some 2)) (Some 2)].
+Proof. vm_compute. reflexivity. Qed.
+
+Example C08_errgroup_check_all_nil :
+  model_obs [(false, None); (false, None)] [ORel 0; ORel 1; OWait] =
+  [EObs 1 None None; EObs 2 None None; EObs 2 (Some None) (Some 0)].
+Proof. vm_compute. reflexivity. Qed.
+
+Example C08_errgroup_check_parent_first :
+  model_obs [(true, Some 0); (false, Some 3)] [ORel 0; OPar; OWait; ORel 1] =
+  [EObs 0 None None; EObs 1 None (Some 1); EObs 1 None (Some 1); EObs 2 (Some (Some 0)) (Some 1)].
+Proof. vm_compute. reflexivity. Qed.
